@@ -102,6 +102,9 @@ def main():
                     m = M.flip_orientation(m, rng.random(m.ne) < 0.5)
                 if r % 2 == 0:
                     m = M.assign_domains(m, rng, ndom=int(rng.integers(2, 5)), values=rng.choice(1000, size=4, replace=False))
+                if r % 2 == 1:
+                    # units: the same surface in micrometres / kilometres (geometry is homogeneous: normals stay unit, areas scale with s^2)
+                    m = M.scale(m, [1e-6, 1e-4, 1e3, 1e6][(mi + r // 2) % 4])
                 if r % 4 == 3:
                     # unreferenced vertices at the end and in the middle
                     extra = rng.normal(size=(3, 2))
